@@ -309,6 +309,12 @@ func (c *compiler) computeStates() {
 				break
 			}
 		}
+		if last != nil && c.hasOtherPredecessors(last.index, i) {
+			// The input nonterminal is left-recursive and the state following it is also reachable
+			// in a nested context, where the input must not be accepted. Give the entry state
+			// its own copy of that state.
+			last = c.cloneState(last, i)
+		}
 		if last == nil {
 			last = &state{index: len(c.states), symbol: inp.Nonterminal, sourceState: i, lr0: true}
 			c.states = append(c.states, last)
@@ -330,6 +336,39 @@ func (c *compiler) computeStates() {
 	}
 	c.out.FinalStates = finalStates
 	c.out.NumStates = len(c.states)
+}
+
+// hasOtherPredecessors checks if "target" can be reached from any state other than "from".
+func (c *compiler) hasOtherPredecessors(target, from int) bool {
+	for _, s := range c.states {
+		if s.index != from && slices.Contains(s.shifts, target) {
+			return true
+		}
+	}
+	return false
+}
+
+// cloneState adds a copy of "orig" and redirects the transition "from -> orig" to it.
+func (c *compiler) cloneState(orig *state, from int) *state {
+	ret := &state{
+		index:       len(c.states),
+		symbol:      orig.symbol,
+		sourceState: from,
+		core:        orig.core,
+		shifts:      slices.Clone(orig.shifts),
+		reduce:      orig.reduce,
+		lr0:         orig.lr0,
+		dropped:     orig.dropped,
+	}
+	c.states = append(c.states, ret)
+	shifts := c.states[from].shifts
+	shifts[slices.Index(shifts, orig.index)] = ret.index
+	for i, m := range c.out.Markers {
+		if slices.Contains(m.States, orig.index) {
+			c.out.mark(ret.index, i)
+		}
+	}
+	return ret
 }
 
 func (c *compiler) checkLR0() {
